@@ -25,8 +25,9 @@ def get_trough_wells(n: int, trough_wells: Union[collections.abc.Iterable[str], 
     wells : list
         n virtual wells in the trough
     """
-    if not isinstance(n, int):
+    if not isinstance(n, (int, numpy.integer)):
         raise TypeError("n must be int")
+    n = int(n)
     if n < 0:
         raise ValueError("n must be ≥ 0.")
     trough_wells = list(numpy.asarray(trough_wells).flatten("F"))
